@@ -5,7 +5,7 @@
   derivative.py (`_qderiv_actuator_passive_vel`, `_qderiv_actuator_passive`, `_qderiv_tendon_damping`),
   forward.py (`_compute_damping_deriv`), passive.py (callers of `_poly_force`).
 
-  READ THIS FIRST.  `_poly_force(linear, poly, x, flg_odd)` is NOT a force: it is the (state dependent)
+  READ THIS FIRST (1).  `_poly_force(linear, poly, x, flg_odd)` is NOT a force: it is the (state dependent)
   stiffness / damping COEFFICIENT  k(x) = linear + poly₀·x̃ + poly₁·x̃²  with x̃ = |x| if flg_odd == 1 else x.
   Every caller in passive.py forms the force as  F(x) = −x·k(x)   (`-v * _poly_force(damping, dpoly, v, 1)`,
   `-fdif * _poly_force(stiffness, spoly, fdif, 0)`, …).   `_poly_force_deriv` = linear + 2·poly₀·x̃ + 3·poly₁·x̃²
@@ -19,6 +19,7 @@
   `_qderiv_actuator_passive`, `_qderiv_actuator_passive_vel`, `_qderiv_tendon_damping`) · 4 examples.
 -/
 import MjwVerif.Lemmas.C27
+import MjwVerif.Lemmas.C03
 import MjwVerif.Gen.Derivative
 import MjwVerif.Gen.Forward
 
@@ -26,7 +27,7 @@ set_option linter.unusedVariables false
 set_option linter.unusedSimpArgs false
 
 namespace Mjw.Props.C27
-open Mjw Mjw.Gen.Util_misc Mjw.Gen.Derivative Mjw.Gen.Forward Mjw.Lemmas.C24 Mjw.Lemmas.C27
+open Mjw Mjw.Gen.Util_misc Mjw.Gen.Derivative Mjw.Gen.Forward Mjw.Lemmas.C24 Mjw.Lemmas.C27 Mjw.Lemmas.C03
 
 /-! ## 1. the polynomial force law -/
 
@@ -185,46 +186,123 @@ theorem qderiv_actuator_passive_spec (h : Int → ℝ) (flags : Int) (damping : 
         · left; simp [h1]
       simp only [this, Bool.false_eq_true, if_false, if_neg hc, hsub, hmul, List.nil_append, sub_zero]
 
-/-- the input the velocity gain multiplies in `_qderiv_actuator_passive_vel`: `ctrl` for stateless actuators
-    (`dyntype == NONE`), else the last activation variable (its next value if `actearly`). -/
+/-- the input the velocity gain multiplies in `_qderiv_actuator_passive_vel`: for stateless actuators
+    (`dyntype == NONE`) the control `_actuator_force` uses, i.e. `Lemmas.C03.usedCtrl` = `ctrl` clamped to `ctrlrange`
+    iff `ctrllimited` and CLAMPCTRL is not disabled; else the last activation variable (its next value if
+    `actearly`). -/
 noncomputable def velInput (h : Int → ℝ) (dyntype actadr actnum : Int → Int) (dynprm : Int → Int → V10 ℝ)
     (actlimited : Int → Bool) (actrange : Int → Int → V2 ℝ) (actearly : Int → Bool)
-    (act_in ctrl_in act_dot_in : Int → Int → ℝ) (sdyn sh sar w a : Int) : ℝ :=
+    (ctrllimited : Int → Bool) (ctrlrange : Int → Int → V2 ℝ)
+    (act_in ctrl_in act_dot_in : Int → Int → ℝ) (dsbl : Int) (sdyn sh sar scr w a : Int) : ℝ :=
   if dyntype a ≠ 0 then
     (if actearly a then
       Mjw.Gen.Support.next_act (h (Int.tmod w sh)) (dyntype a) (dynprm (Int.tmod w sdyn) a)
         (actrange (Int.tmod w sar) a) (act_in w (actadr a + actnum a - 1)) (act_dot_in w (actadr a + actnum a - 1))
         (Scalar.lit 1 0) (actlimited a)
      else act_in w (actadr a + actnum a - 1))
-  else ctrl_in w a
+  else usedCtrl (ctrllimited a) dsbl (ctrl_in w a) (ctrlrange (Int.tmod w scr) a)
+
+/-- `usedCtrl` over ℝ, written out: `Scalar.clamp x lo hi = min (max lo x) hi` -/
+theorem usedCtrl_real (lim : Bool) (dsbl : Int) (x : ℝ) (rng : V2 ℝ) :
+    usedCtrl lim dsbl x rng = if lim = true ∧ dsbl = 0 then min (max rng.c0 x) rng.c1 else x := by
+  unfold usedCtrl
+  by_cases h : lim = true ∧ dsbl = 0
+  · obtain ⟨h1, h2⟩ := h
+    subst h1; subst h2
+    simp [Scalar.clamp]
+  · rw [if_neg h]
+    have : (lim && !(decide (dsbl ≠ 0))) = false := by
+      rw [Bool.and_eq_false_iff]
+      by_cases h1 : lim = true
+      · right; simpa using fun h2 => h ⟨h1, h2⟩
+      · left; simpa using h1
+    simp only [this, Bool.false_eq_true, if_false]
 
 /-- **`_qderiv_actuator_passive_vel`, affine gain and affine bias** (`GainType.AFFINE = BiasType.AFFINE = 1`;
     position / velocity / damper / general actuators), force not clamped by `forcerange`: exactly one store
-      `vel[w,a] := biasprm[2] + gainprm[2] · u`,     u = `velInput` (ctrl or activation),
+      `vel[w,a] := biasprm[2] + gainprm[2] · u`,     u = `velInput` (clamped ctrl, or activation),
     in every sub-case of the code (both zero → the early `0`; gain = 0 → bias only; …). -/
 theorem qderiv_actuator_vel_affine (h : Int → ℝ) (dyntype gaintype biastype actadr actnum : Int → Int)
     (dynprm gainprm biasprm : Int → Int → V10 ℝ) (actlimited : Int → Bool) (actrange : Int → Int → V2 ℝ)
     (actearly forcelimited : Int → Bool) (frange : Int → Int → V2 ℝ)
-    (act_in ctrl_in act_dot_in force vel_out : Int → Int → ℝ) (sg sb sdyn sh sfr sar w a : Int)
+    (ctrllimited : Int → Bool) (ctrlrange : Int → Int → V2 ℝ)
+    (act_in ctrl_in act_dot_in force : Int → Int → ℝ) (dsbl : Int) (vel_out : Int → Int → ℝ)
+    (sg sb sdyn sh sfr sar scr w a : Int)
     (hg : gaintype a = 1) (hb : biastype a = 1)
     (hcl : ¬ (forcelimited a = true ∧
       (force w a ≤ (frange (Int.tmod w sfr) a).c0 ∨ (frange (Int.tmod w sfr) a).c1 ≤ force w a))) :
     _qderiv_actuator_passive_vel h dyntype gaintype biastype actadr actnum dynprm gainprm biasprm actlimited
-        actrange actearly forcelimited frange act_in ctrl_in act_dot_in force vel_out sg sb sdyn sh sfr sar w a
+        actrange actearly forcelimited frange ctrllimited ctrlrange act_in ctrl_in act_dot_in force dsbl vel_out
+        sg sb sdyn sh sfr sar scr w a
       = [Write.mk "vel_out" [w, a]
           (WVal.f ((biasprm (Int.tmod w sb) a).c2 + (gainprm (Int.tmod w sg) a).c2
-            * velInput h dyntype actadr actnum dynprm actlimited actrange actearly act_in ctrl_in act_dot_in
-                sdyn sh sar w a)) WKind.set] := by
-  unfold _qderiv_actuator_passive_vel velInput
+            * velInput h dyntype actadr actnum dynprm actlimited actrange actearly ctrllimited ctrlrange
+                act_in ctrl_in act_dot_in dsbl sdyn sh sar scr w a)) WKind.set] := by
+  unfold _qderiv_actuator_passive_vel velInput usedCtrl
   simp only [hg, hb, decide_true, if_true]
   generalize (biasprm (Int.tmod w sb) a).c2 = b
   generalize (gainprm (Int.tmod w sg) a).c2 = g
   generalize Mjw.Gen.Support.next_act (h (Int.tmod w sh)) (dyntype a) (dynprm (Int.tmod w sdyn) a)
         (actrange (Int.tmod w sar) a) (act_in w (actadr a + actnum a - 1)) (act_dot_in w (actadr a + actnum a - 1))
         (Scalar.lit 1 0) (actlimited a) = na
+  generalize Scalar.clamp (ctrl_in w a) (ctrlrange (Int.tmod w scr) a).c0 (ctrlrange (Int.tmod w scr) a).c1 = cc
   simp only [sbeq, sbne, sle, sge, lit0, hadd, hmul, Bool.and_eq_true, Bool.or_eq_true, List.nil_append,
     zero_add, decide_eq_true_eq, ne_eq]
   split_ifs <;> simp_all
+
+/-- **the derivative kernel differentiates the force the force kernel computes**: `_qderiv_actuator_passive_vel`
+    sees `ctrl` only through `usedCtrl(ctrllimited[a], dsbl_clampctrl, ctrl[w,a], ctrlrange[w % n, a])` — its task
+    `(w, a)` gives the same writes as the task of an UNLIMITED actuator fed with that value — which is, with the
+    same four arguments, exactly how `_actuator_force` sees it (`Lemmas.C03.actuator_force_ctrl_clamp`, restated
+    as the second conjunct).  All gain / bias / dyn types, every scalar type `K`. -/
+theorem qderiv_uses_same_ctrl_as_force {K : Type} [Scalar K]
+    (na : Int) (h : Int → K) (dyntype gaintype biastype actadr actnum : Int → Int)
+    (dynprm gainprm biasprm : Int → Int → V10 K) (actlimited : Int → Bool) (actrange : Int → Int → V2 K)
+    (actearly forcelimited : Int → Bool) (frange : Int → Int → V2 K)
+    (ctrllimited : Int → Bool) (ctrlrange : Int → Int → V2 K) (acc0 : Int → Int → K) (lengthrange : Int → Int → V2 K)
+    (act_in ctrl_in act_dot_in force len velo : Int → Int → K) (dsbl : Int) (vel_out act_dot_out force_out : Int → Int → K)
+    (sg sb sdyn sh sfr sar scr s5 s6 w a : Int) :
+    _qderiv_actuator_passive_vel h dyntype gaintype biastype actadr actnum dynprm gainprm biasprm actlimited
+        actrange actearly forcelimited frange ctrllimited ctrlrange act_in ctrl_in act_dot_in force dsbl vel_out
+        sg sb sdyn sh sfr sar scr w a
+      = _qderiv_actuator_passive_vel h dyntype gaintype biastype actadr actnum dynprm gainprm biasprm actlimited
+        actrange actearly forcelimited frange (fun _ => false) ctrlrange act_in
+        (fun _ _ => usedCtrl (ctrllimited a) dsbl (ctrl_in w a) (ctrlrange (Int.tmod w scr) a))
+        act_dot_in force dsbl vel_out sg sb sdyn sh sfr sar scr w a
+    ∧
+    _actuator_force na h dyntype gaintype biastype actadr actnum dynprm gainprm biasprm actlimited actrange
+        actearly forcelimited frange ctrllimited ctrlrange acc0 lengthrange act_in ctrl_in len velo dsbl
+        act_dot_out force_out scr sdyn sg sh sb sar s5 s6 sfr w a
+      = _actuator_force na h dyntype gaintype biastype actadr actnum dynprm gainprm biasprm actlimited actrange
+        actearly forcelimited frange (fun _ => false) ctrlrange acc0 lengthrange act_in
+        (fun _ _ => usedCtrl (ctrllimited a) dsbl (ctrl_in w a) (ctrlrange (Int.tmod w scr) a))
+        len velo dsbl act_dot_out force_out scr sdyn sg sh sb sar s5 s6 sfr w a := by
+  refine ⟨?_, actuator_force_ctrl_clamp _ _ _ _ _ _ _ _ _ _ _ _ _ _ _ _ _ _ _ _ _ _ _ _ _ _ _ _ _ _ _ _ _ _ _ _ _⟩
+  unfold _qderiv_actuator_passive_vel
+  conv => lhs; zeta
+  conv => rhs; zeta
+  -- the two big tuple-valued `if`s (gain block, bias block) do not involve ctrl: name their results
+  generalize (ite (decide (gaintype a = 1) = true) _ _ : K × V10 K × V10 K × K × Int × K × K × K × K × K × K) = t1
+  obtain ⟨g, p1, p2, p3, p4, p5, p6, p7, p8, p9, b0⟩ := t1
+  dsimp only
+  generalize (ite (decide (biastype a = 1) = true) _ _ :
+    K × V10 K × K × V10 K × K × K × I6 × Int × Int × K × K × K × K) = t2
+  obtain ⟨b, q1, q2, q3, q4, q5, q6, q7, q8, q9, q10, q11, q12⟩ := t2
+  dsimp only
+  -- the clamp block: same second component (the control used) on both sides
+  generalize hL : (ite ((ctrllimited a && !decide (dsbl ≠ 0)) = true) _ _ : V2 K × K) = tL
+  generalize hR : (ite ((false && !decide (dsbl ≠ 0)) = true) _ _ : V2 K × K) = tR
+  have h2 : tL.2 = tR.2 := by
+    rw [← hL, ← hR]
+    simp only [usedCtrl, Bool.false_and, Bool.false_eq_true, if_false]
+    split <;> rfl
+  clear hL hR
+  obtain ⟨x, y⟩ := tL
+  obtain ⟨x', y'⟩ := tR
+  simp only at h2
+  subst h2
+  dsimp only
+  split_ifs <;> rfl
 
 /-- what that number is: the affine actuator force of forward.py `_actuator_force`,
     `force = gain·u + bias`, `gain = g₀ + g₁·length + g₂·velocity`, `bias = b₀ + b₁·length + b₂·velocity`,
@@ -241,11 +319,14 @@ theorem affine_force_hasDerivAt (g0 g1 g2 b0 b1 b2 len u vel : ℝ) :
 theorem qderiv_actuator_vel_clamped (h : Int → ℝ) (dyntype gaintype biastype actadr actnum : Int → Int)
     (dynprm gainprm biasprm : Int → Int → V10 ℝ) (actlimited : Int → Bool) (actrange : Int → Int → V2 ℝ)
     (actearly forcelimited : Int → Bool) (frange : Int → Int → V2 ℝ)
-    (act_in ctrl_in act_dot_in force vel_out : Int → Int → ℝ) (sg sb sdyn sh sfr sar w a : Int)
+    (ctrllimited : Int → Bool) (ctrlrange : Int → Int → V2 ℝ)
+    (act_in ctrl_in act_dot_in force : Int → Int → ℝ) (dsbl : Int) (vel_out : Int → Int → ℝ)
+    (sg sb sdyn sh sfr sar scr w a : Int)
     (hg : gaintype a = 1) (hb : biastype a = 1) (hfl : forcelimited a = true)
     (hcl : force w a ≤ (frange (Int.tmod w sfr) a).c0 ∨ (frange (Int.tmod w sfr) a).c1 ≤ force w a) :
     _qderiv_actuator_passive_vel h dyntype gaintype biastype actadr actnum dynprm gainprm biasprm actlimited
-        actrange actearly forcelimited frange act_in ctrl_in act_dot_in force vel_out sg sb sdyn sh sfr sar w a
+        actrange actearly forcelimited frange ctrllimited ctrlrange act_in ctrl_in act_dot_in force dsbl vel_out
+        sg sb sdyn sh sfr sar scr w a
       = [Write.mk "vel_out" [w, a] (WVal.f (0 : ℝ)) WKind.set] := by
   unfold _qderiv_actuator_passive_vel
   simp only [hg, hb, decide_true, if_true, hfl]
@@ -260,21 +341,25 @@ theorem qderiv_actuator_vel_clamped (h : Int → ℝ) (dyntype gaintype biastype
 theorem qderiv_actuator_vel_none (h : Int → ℝ) (dyntype gaintype biastype actadr actnum : Int → Int)
     (dynprm gainprm biasprm : Int → Int → V10 ℝ) (actlimited : Int → Bool) (actrange : Int → Int → V2 ℝ)
     (actearly forcelimited : Int → Bool) (frange : Int → Int → V2 ℝ)
-    (act_in ctrl_in act_dot_in force vel_out : Int → Int → ℝ) (sg sb sdyn sh sfr sar w a : Int)
+    (ctrllimited : Int → Bool) (ctrlrange : Int → Int → V2 ℝ)
+    (act_in ctrl_in act_dot_in force : Int → Int → ℝ) (dsbl : Int) (vel_out : Int → Int → ℝ)
+    (sg sb sdyn sh sfr sar scr w a : Int)
     (hg1 : gaintype a ≠ 1) (hg3 : gaintype a ≠ 3) (hb1 : biastype a ≠ 1) (hb3 : biastype a ≠ 3) :
     _qderiv_actuator_passive_vel h dyntype gaintype biastype actadr actnum dynprm gainprm biasprm actlimited
-        actrange actearly forcelimited frange act_in ctrl_in act_dot_in force vel_out sg sb sdyn sh sfr sar w a
+        actrange actearly forcelimited frange ctrllimited ctrlrange act_in ctrl_in act_dot_in force dsbl vel_out
+        sg sb sdyn sh sfr sar scr w a
       = [Write.mk "vel_out" [w, a] (WVal.f (0 : ℝ)) WKind.set] := by
   unfold _qderiv_actuator_passive_vel
   simp only [hg1, hg3, hb1, hb3, decide_false, Bool.false_eq_true, if_false, sbeq, lit0, Bool.and_eq_true,
     and_self, if_true, List.nil_append]
 
-/- NOT characterised (would be `qderiv_actuator_vel_dcmotor_partial`): the DCMOTOR gain / bias branches
-   (back-EMF, LuGre, thermal resistance terms; they need `dcmotor_slots` and the DC-motor force law of
-   `_actuator_force`, ~300 generated lines).  Caveat for the affine case, read from the source: the kernel uses
-   the RAW `ctrl_in`, while `_actuator_force` clamps ctrl to `ctrlrange` first — for a ctrl-limited actuator
-   driven outside its range the stored value is `b₂ + g₂·ctrl`, the true derivative `b₂ + g₂·clamp(ctrl)`
-   (MuJoCo C's `mjd_actuator_vel` does the same). -/
+/- NOT characterised (would be `qderiv_actuator_vel_dcmotor_partial`): the closed form of the DCMOTOR gain / bias
+   branches (back-EMF, LuGre, thermal resistance terms; they need `dcmotor_slots` and the DC-motor force law of
+   `_actuator_force`, ~300 generated lines).  `qderiv_uses_same_ctrl_as_force` does cover them.
+   History: before /repo commit "fix: velocity derivative of affine actuators used the raw control…" the kernel
+   multiplied the gain by the RAW `ctrl_in` while `_actuator_force` clamps ctrl to `ctrlrange` first (found by the
+   former `clamped_ctrl_derivative_witness`); `clamped_ctrl_derivative_repaired` below is that witness's scenario,
+   now a positive statement. -/
 
 /-- **`_qderiv_tendon_damping`** (CSR rows of `ten_J` with pairwise distinct column indices): off-pattern
     pairs write nothing; otherwise exactly one store
@@ -346,17 +431,56 @@ example : _qderiv_actuator_passive (fun _ => (0.5:ℝ)) 0 (fun _ _ => 2) (fun _ 
   simp [this, (poly_force_linear 2 7 1).2]
   norm_num
 
-/-- affine position-velocity actuator (gain (kp,0,0)… here g₂ = −0.5, b₂ = −3, ctrl 4, stateless):
+/-- affine actuator with g₂ = −0.5, b₂ = −3, ctrl 4, stateless, not ctrl-limited:
     stored derivative −3 + (−0.5)·4 = −5. -/
 example : _qderiv_actuator_passive_vel (fun _ => (0.01:ℝ)) (fun _ => 0) (fun _ => 1) (fun _ => 1) (fun _ => 0)
     (fun _ => 0) (fun _ _ => V10.zero) (fun _ _ => ⟨0, 0, -0.5, 0, 0, 0, 0, 0, 0, 0⟩)
     (fun _ _ => ⟨0, 0, -3, 0, 0, 0, 0, 0, 0, 0⟩) (fun _ => false) (fun _ _ => ⟨0, 0⟩) (fun _ => false)
-    (fun _ => false) (fun _ _ => ⟨0, 0⟩) (fun _ _ => 0) (fun _ _ => 4) (fun _ _ => 0) (fun _ _ => 0)
-    (fun _ _ => 0) 1 1 1 1 1 1 0 0
+    (fun _ => false) (fun _ _ => ⟨0, 0⟩) (fun _ => false) (fun _ _ => ⟨0, 0⟩)
+    (fun _ _ => 0) (fun _ _ => 4) (fun _ _ => 0) (fun _ _ => 0) 0
+    (fun _ _ => 0) 1 1 1 1 1 1 1 0 0
     = [Write.mk "vel_out" [0, 0] (WVal.f (-5:ℝ)) WKind.set] := by
-  rw [qderiv_actuator_vel_affine _ _ _ _ _ _ _ _ _ _ _ _ _ _ _ _ _ _ _ _ _ _ _ _ _ _ _ rfl rfl (by simp)]
-  simp [velInput]
+  rw [qderiv_actuator_vel_affine _ _ _ _ _ _ _ _ _ _ _ _ _ _ _ _ _ _ _ _ _ _ _ _ _ _ _ _ _ _ _ rfl rfl (by simp)]
+  simp [velInput, usedCtrl_real]
   norm_num
+
+/-- the force `_actuator_force` stores for a stateless affine actuator with gainprm = (0,0,1), biasprm = 0,
+    ctrl = 3, ctrl-limited with ctrlrange [−1,1], as a function of the actuator velocity v -/
+noncomputable def clampedForce (v : ℝ) : ℝ :=
+  Write.lookupF
+    (_actuator_force (K := ℝ) 0 (fun _ => 0.01) (fun _ => 0) (fun _ => 1) (fun _ => 1) (fun _ => 0) (fun _ => 0)
+      (fun _ _ => V10.zero) (fun _ _ => ⟨0, 0, 1, 0, 0, 0, 0, 0, 0, 0⟩) (fun _ _ => V10.zero)
+      (fun _ => false) (fun _ _ => ⟨0, 0⟩) (fun _ => false) (fun _ => false) (fun _ _ => ⟨0, 0⟩)
+      (fun _ => true) (fun _ _ => ⟨-1, 1⟩) (fun _ _ => 0) (fun _ _ => ⟨0, 0⟩)
+      (fun _ _ => 0) (fun _ _ => 3) (fun _ _ => 0) (fun _ _ => v) 0 (fun _ _ => 0) (fun _ _ => 0)
+      1 1 1 1 1 1 1 1 1 0 0) "actuator_force_out" [0, 0] 0
+
+/-- what `_qderiv_actuator_passive_vel` stores for the same actuator, same ctrl -/
+noncomputable def clampedVelDeriv : ℝ :=
+  Write.lookupF
+    (_qderiv_actuator_passive_vel (fun _ => (0.01:ℝ)) (fun _ => 0) (fun _ => 1) (fun _ => 1) (fun _ => 0)
+      (fun _ => 0) (fun _ _ => V10.zero) (fun _ _ => ⟨0, 0, 1, 0, 0, 0, 0, 0, 0, 0⟩)
+      (fun _ _ => V10.zero) (fun _ => false) (fun _ _ => ⟨0, 0⟩) (fun _ => false)
+      (fun _ => false) (fun _ _ => ⟨0, 0⟩) (fun _ => true) (fun _ _ => ⟨-1, 1⟩)
+      (fun _ _ => 0) (fun _ _ => 3) (fun _ _ => 0) (fun _ _ => 0) 0
+      (fun _ _ => 0) 1 1 1 1 1 1 1 0 0) "vel_out" [0, 0] 0
+
+theorem clampedForce_eq (v : ℝ) : clampedForce v = v := by
+  unfold clampedForce _actuator_force
+  simp [Write.lookupF, Scalar.clamp, V10.zero, V10.fill]
+
+theorem clampedVelDeriv_eq : clampedVelDeriv = 1 := by
+  unfold clampedVelDeriv
+  rw [qderiv_actuator_vel_affine _ _ _ _ _ _ _ _ _ _ _ _ _ _ _ _ _ _ _ _ _ _ _ _ _ _ _ _ _ _ _ rfl rfl (by simp)]
+  simp [Write.lookupF, velInput, usedCtrl_real, V10.zero, V10.fill]
+
+/-- the scenario of the former defect witness (ctrl = 3 outside ctrlrange [−1,1], velocity gain 1), evaluated on
+    the generated kernels: the force `_actuator_force` stores is v ↦ 1·v and the value
+    `_qderiv_actuator_passive_vel` stores IS its derivative (it was 3 before the repair). -/
+theorem clamped_ctrl_derivative_repaired (v : ℝ) : HasDerivAt clampedForce clampedVelDeriv v := by
+  have hf : clampedForce = fun v => v := funext clampedForce_eq
+  rw [hf, clampedVelDeriv_eq]
+  exact hasDerivAt_id' v
 
 end examples
 
